@@ -279,7 +279,7 @@ func run(c *vkit.Collector, rng *vkit.Rng, budget int) {
 	for k := 0; k < nTriples; k++ {
 		t := genTriple(rng)
 		c.Class(t.class)
-		checkTriple(c, rng, t, k < 330*budget)
+		checkTriple(c, rng, t, k < 305*budget)
 	}
 	_ = inf
 	runChord(c, rng, budget)
@@ -935,9 +935,50 @@ func runPolylines(c *vkit.Collector, rng *vkit.Rng, budget int) {
 			}
 		}
 	}
+	tinyPolylines(c, rng, budget)
 }
 
-func checkPolyline(c *vkit.Collector, rng *vkit.Rng, pl s2.Polyline, key, cls string, nearStraight bool) {
+// tinyPolylines: polylines of extent <= ~2e-8 rad (and degenerate {a,a}, {a,a,a}) queried at the exact
+// antipodes of their vertices and edge midpoints and within 1e-15 .. 1e-9 rad of those: every squared
+// chord distance from the query rounds to 4.0 (StraightChordAngle), the largest possible value.
+func tinyPolylines(c *vkit.Collector, rng *vkit.Rng, budget int) {
+	neg := func(p s2.Point) s2.Point { return s2.Point{Vector: r3.Vector{X: -p.X, Y: -p.Y, Z: -p.Z}} }
+	for round := 0; round < budget; round++ {
+		for si, step := range []float64{0, 1e-15, 1e-12, 1e-9, 1e-8} {
+			for _, n := range []int{2, 3} {
+				a := randPoint(rng)
+				if round == 0 && si%2 == 0 {
+					a = axisPoint(rng)
+				}
+				pl := s2.Polyline{a}
+				for len(pl) < n {
+					if step == 0 {
+						pl = append(pl, a)
+					} else {
+						last := pl[len(pl)-1]
+						pl = append(pl, along(last, tangentAt(rng, last), step))
+					}
+				}
+				var qs []s2.Point
+				for i, v := range pl {
+					qs = append(qs, neg(v))
+					if i > 0 {
+						qs = append(qs, neg(norm(comb(pl[i-1].Vector, 1, v.Vector, 1))))
+					}
+				}
+				base := qs[rng.Intn(len(qs))]
+				for _, r := range []float64{1e-15, 1e-12, 1e-9} {
+					qs = append(qs, along(base, tangentAt(rng, base), r))
+				}
+				cls := fmt.Sprintf("tiny polyline n=%d step=%g queried at/near antipodes", n, step)
+				c.Class(cls)
+				checkPolyline(c, rng, pl, fmt.Sprintf("tiny#%d step=%g n=%d", round, step, n), cls, false, qs...)
+			}
+		}
+	}
+}
+
+func checkPolyline(c *vkit.Collector, rng *vkit.Rng, pl s2.Polyline, key, cls string, nearStraight bool, queries ...s2.Point) {
 	n := len(pl)
 	PL := ptList(pl)
 	length := pl.Length()
@@ -1027,26 +1068,30 @@ func checkPolyline(c *vkit.Collector, rng *vkit.Rng, pl s2.Polyline, key, cls st
 			}
 		}
 	}
-	// Project / IsOnRight
+	// Project / IsOnRight / Uninterpolate after Project
 	nq := 3
 	if n > 50 {
 		nq = 1
 	}
-	for j := 0; j < nq; j++ {
+	for j := 0; j < nq+len(queries); j++ {
 		var x s2.Point
-		switch rng.Intn(4) {
-		case 0:
-			x = pl[rng.Intn(n)]
-		case 1:
-			v := pl[rng.Intn(n)]
-			x = along(v, tangentAt(rng, v), []float64{1e-15, 1e-9, 1e-3}[rng.Intn(3)])
-		default:
-			x = randPoint(rng)
+		if j >= nq {
+			x = queries[j-nq]
+		} else {
+			switch rng.Intn(4) {
+			case 0:
+				x = pl[rng.Intn(n)]
+			case 1:
+				v := pl[rng.Intn(n)]
+				x = along(v, tangentAt(rng, v), []float64{1e-15, 1e-9, 1e-3}[rng.Intn(3)])
+			default:
+				x = randPoint(rng)
+			}
 		}
 		var q s2.Point
 		var next int
 		if m := try(func() { q, next = pl.Project(x) }); m != "" {
-			c.Violate("Polyline.panic", "Project panicked on a non-empty polyline: "+m, rep("polyline_bits", plBits(pl), "x", x))
+			c.Violate("Polyline.Project.panic", "Project panicked on a non-empty polyline: "+m, rep("polyline_bits", plBits(pl), "x", x))
 			continue
 		}
 		c.Evals++
@@ -1073,9 +1118,36 @@ func checkPolyline(c *vkit.Collector, rng *vkit.Rng, pl s2.Polyline, key, cls st
 		if !nearStraight && e1 > 1e-14 && e2 > 3e-15 {
 			c.Violate("Polyline.Project.distance", fmt.Sprintf("projected point is %.3g rad farther/closer than the true closest distance", e1), R)
 		}
+		// the projected point lies on the polyline (checked for the explicit queries of the tiny/degenerate family)
+		if j >= nq {
+			offMin := math.Inf(1)
+			if n == 1 {
+				offMin = f64(vangle(Q3, unitOf(pl[0].Vector)))
+			}
+			for i := 1; i < n; i++ {
+				if t, _, okq := trueSegDist(q.Vector, pl[i-1].Vector, pl[i].Vector); okq {
+					offMin = math.Min(offMin, f64(angleOfChord2(t)))
+				}
+			}
+			if offMin > 1e-14 {
+				c.Violate("Polyline.Project.on_polyline", fmt.Sprintf("projected point is %.3g rad away from the polyline", offMin), R)
+			}
+		}
 		if n >= 2 {
 			or := s2.OrderedCCW(pl[imax(next-2, 0)], x, pl[imin(next, n-1)], pl[next-1])
-			c.Check(fmt.Sprintf("Polyline.IsOnRight %s #%d", key, j), vkit.App("Bool.eqb", vkit.App("m_Polyline_IsOnRight", vkit.B(or), PL, pt(x)), vkit.B(pl.IsOnRight(x))))
+			var right bool
+			var u float64
+			if m := try(func() { right = pl.IsOnRight(x); u = pl.Uninterpolate(q, next) }); m != "" {
+				c.Violate("Polyline.Project.panic", "IsOnRight / Uninterpolate(Project(x)) panicked: "+m, R)
+				continue
+			}
+			c.Check(fmt.Sprintf("Polyline.IsOnRight %s #%d", key, j), vkit.App("Bool.eqb", vkit.App("m_Polyline_IsOnRight", vkit.B(or), PL, pt(x)), vkit.B(right)))
+			if j >= nq {
+				c.Check(fmt.Sprintf("Polyline.Uninterpolate(Project) %s #%d", key, j), fEq(vkit.App("m_Polyline_Uninterpolate", PL, pt(q), vkit.Z(int64(next))), u))
+			}
+			if !(u >= 0 && u <= 1) {
+				c.Violate("Polyline.Uninterpolate.range", fmt.Sprintf("Uninterpolate(Project(x)) = %v outside [0,1]", u), R)
+			}
 		}
 	}
 }
